@@ -17,7 +17,7 @@ ASSUMPTIONS = ["round trips run inside one compilation per red-channel slice; on
 
 
 def plan(tier):
-    return {"budget_s": 50 if tier == "quick" else 700, "profiles": ["R"], "min_evaluations": 5000}
+    return {"budget_s": 50 if tier == "quick" else 700, "profiles": ["R"], "min_evaluations": 2000}
 
 
 RT_FN = """
